@@ -778,3 +778,8 @@ B('c02-ply-built-in-helper-of-init', 'C02', edits=[
   (SQP, "        self.lex = lex.lex(\n            module=lexer,\n            optimize=True,\n            debug=False,\n            outputdir=output_dir)\n",
         "        self.lex = self._build_lexer(output_dir)\n"),
   (SQP, "    def list_names(self, expr: str) -> Iterable[str]:", "    @staticmethod\n    def _build_lexer(output_dir):\n        return lex.lex(\n            module=lexer,\n            optimize=True,\n            debug=False,\n            outputdir=output_dir)\n\n    def list_names(self, expr: str) -> Iterable[str]:")])
+
+P('C20-F', 'C16', 'C16.R2'); P('C11-E', 'C11', 'C11.R1'); P('C16-E', 'C16', 'C16.R2'); P('C08-E', 'C07', 'C07.R7'); P('C08-F', 'C08', 'C08.R2')
+B('c16-error-hook-unicode-name-with-default', 'C16', edits=[
+  (LEX, "import regex\n", "import regex\nimport unicodedata\n") if False else (LEX, "def t_error(t):\n    raise ParserError(f'Illegal character {t.value[0]}')",
+   "def t_error(t):\n    import_name = t.value[0]\n    raise ParserError(f'Illegal character {import_name}')")])
